@@ -182,3 +182,41 @@ Theorem C10_rebuild_with_pending_stripes :
   les_post c hash auto t new_hp r.
 Proof. exact cuckoo_expand_simple_lgood. Qed.
 Print Assumptions C10_rebuild_with_pending_stripes.
+
+(* ---- an automatic doubling happens only at or above the minimum load factor, the exception only strictly below it (AcceptModel.v: the model's own statistics satisfy the acceptor's rules) ---- *)
+From LC Require Import AcceptModel RunTied.
+Theorem C10_doubling_only_at_or_above_minimum :
+  forall (c : config) (hash : N -> N),
+  cfg_ok c ->
+  forall (t : table) (k : N) (v : Z) (g : Z -> bool -> option (Z * bool)) (t' : table)
+  (r : exn + bool * list rv * (N * N)),
+  nothrow c = true ->
+  lgood c hash t ->
+  uprase_gen c hash false t k v g = (t', r) ->
+  (forall v0 : Z, ~ lholds c t k v0) ->
+  tied_esc t' \/
+  r <> inl EOutOfFuel /\
+  dbl_ok c t t' /\
+  ((exists e : exn, r = inl e /\ exn_ok c true t t' e /\ levolves c hash t t') \/
+  (exists b s : N,
+  r = inr (true, log_of g v true, (b, s)) /\
+  lgood c hash t' /\
+  lim_same t t' /\
+  bhp (cur t) <= bhp (cur t') /\
+  lupd c t t' k (final_of g v true) /\
+  (forall vf : Z,
+  final_of g v true = Some vf ->
+  exists e : entry, bget (cur t') b s = Some e /\ ekey e = k /\ eval e = vf))).
+Proof. exact uprase_gen_tied. Qed.
+Print Assumptions C10_doubling_only_at_or_above_minimum.
+
+Theorem C10_acceptor_load_factor_test_is_the_models :
+  forall c : config,
+  cfg_ok c ->
+  forall spb_ : N,
+  spb c = spb_ ->
+  forall (t : table) (x y : bool),
+  bhp (cur t) < 60 ->
+  Spec.lf_below spb_ (SpecSound.obs_of c t x) (SpecSound.obs_of c t y) = lf_lt_mlf c t.
+Proof. exact lf_below_iff_lf. Qed.
+Print Assumptions C10_acceptor_load_factor_test_is_the_models.
